@@ -568,6 +568,29 @@ class Unit:
                 if at < 0 or at > sh.body_close:
                     raise SpliceError("%s: %s: text not found" % (name, pos))
             return at if mt.group(1) == "before" else at + len(lit)
+        mt = re.match(r"^after_stmt_with:(\d+):(.+)$", pos, re.S)
+        if mt:
+            # just after the `;` that ends the statement containing the N-th occurrence of a literal piece of source text
+            lit, k = mt.group(2), int(mt.group(1))
+            at = sh.body_open
+            for _ in range(k):
+                at = sh.text.find(lit, at + 1)
+                if at < 0 or at > sh.body_close:
+                    raise SpliceError("%s: %s: text not found" % (name, pos))
+            depth = 0
+            e = at
+            while e < sh.body_close:
+                c = sh.m[e]
+                if c in "([{":
+                    depth += 1
+                elif c in ")]}":
+                    depth -= 1
+                    if depth < 0:
+                        raise SpliceError("%s: %s: statement end not found" % (name, pos))
+                elif c == ";" and depth == 0:
+                    return e + 1
+                e += 1
+            raise SpliceError("%s: %s: statement end not found" % (name, pos))
         mt = re.match(r"^marker:([\w.]+)$", pos)
         if mt:
             # positions defined by a desugaring template (markers are comments inside the generated template text)
